@@ -307,6 +307,34 @@ func runC16(c *Ctx) {
 		}
 		c.obI("R16.2", sc, "SetCap-after-SetLen0", okZ, "reflect.Value.SetCap(n) needs Len() <= n <= Cap(): the destination is reset to length 0 first, so a destination already holding more records than were parsed cannot make it panic", "SetCap is applied to a slice whose length may exceed the requested capacity")
 	}
+	// … and n <= Cap(): room for n elements is made by Grow(n) on the emptied slice (Grow guarantees Len()+n, i.e. n after
+	// SetLen(0)) — Grow by any other amount leaves destinations whose capacity lies between the two too small
+	for _, sc := range callsIn(fc, "(reflect.Value).SetCap") {
+		recv, a := callArgs(sc.Common())
+		var grows []ssa.CallInstruction
+		for _, g := range callsIn(fc, "(reflect.Value).Grow") {
+			if r2, _ := callArgs(g.Common()); r2 == recv && pathExists(fc, g, sc, nil, nil) {
+				grows = append(grows, g)
+			}
+		}
+		what := "reflect.Value.SetCap(n) needs n <= Cap(): the emptied destination is grown by that very n first"
+		if len(grows) == 0 {
+			c.obRI("R16.2", sc, "SetCap-within-grown-capacity", false, what, "no Grow on the destination before SetCap")
+			continue
+		}
+		for _, g := range grows {
+			_, ga := callArgs(g.Common())
+			same := sameVal(ga[0], a[0]) || sameOrigins(ga[0], a[0])
+			switch {
+			case !same:
+				c.obI("R16.2", g, "SetCap-within-grown-capacity", false, what, "the destination is grown by "+describe(ga[0])+" but its capacity is then set to "+describe(a[0])+": a destination with some, but not enough, capacity makes SetCap panic")
+			case dominates(g, sc):
+				c.obI("R16.2", g, "SetCap-within-grown-capacity", true, what, "")
+			default:
+				c.obRI("R16.2", g, "SetCap-within-grown-capacity", false, what, "Grow is skipped on some path to SetCap")
+			}
+		}
+	}
 	// overwrite on every success after the piping in the record-table branch
 	for _, cp := range callsIn(fc, "reflect.Copy") {
 		// the pipeCSV call feeding the csvRecordsWriter
